@@ -113,5 +113,16 @@ func checks() map[string]CheckDef {
 		Outside: []string{"gin's own route matching and net/http (routes are addressed by their pattern)", "metrics route (metrics are disabled in the harness)", "the websocket connect handshake (C10)", "header values with three or more spaces (all are refused by the same len(parts) != 2 test)"},
 		Stubs:   []string{"gin.Context modelled (Param/Query/GetHeader/Bind*/JSON/Abort*/Set/Get/Next); gin's RouterGroup code runs from source, Engine.addRoute is intercepted", "wrapped net/http handlers (swagger, pprof, websocket) are opaque handlers answering 200"},
 	})
+	add(CheckDef{
+		ID: "C16", Level: "model_checking",
+		Runs: []HRun{
+			{Pkg: "internal/zzverif/c16", Func: "HarnessRouteCount", Labels: []string{"C16/route-table-within-runner-range"}},
+			{Pkg: "internal/zzverif/c16", Func: "HarnessNo5xx", Quick: [][]int64{{2, 0}, {2, 1}, {2, 2}, {2, 3}, {2, 4}, {2, 5}, {2, 6}, {2, 7}, {2, 8}, {2, 9}, {2, 10}, {2, 11}, {2, 12}, {2, 13}, {2, 14}, {2, 15}, {2, 16}, {2, 17}, {2, 18}, {2, 19}, {2, 20}, {2, 21}, {2, 22}, {2, 23}}, Thorough: [][]int64{{3, 0}, {3, 1}, {3, 2}, {3, 3}, {3, 4}, {3, 5}, {3, 6}, {3, 7}, {3, 8}, {3, 9}, {3, 10}, {3, 11}, {3, 12}, {3, 13}, {3, 14}, {3, 15}, {3, 16}, {3, 17}, {3, 18}, {3, 19}, {3, 20}, {3, 21}, {3, 22}, {3, 23}},
+				Labels: []string{"C16/no-crash", "C16/no-5xx", "C16/single-document", "C16/client-error-is-structured", "C16/header-store-untouched"}},
+		},
+		Bounds:  []string{"every route registered under /api/v1 on the working tree (enumerated at run time; the runner covers table indexes 0..23 and the route-count harness fails if there are more), authentication off", "one arbitrary request per run: every path parameter and query value an arbitrary string (numeric, non-numeric, empty, hash-shaped, stored or unknown), query values present or absent, bodies either unbindable or an arbitrary value of the bound type with lists of 0..2 elements", "stores: arbitrary INV-H headers table of k rows (quick k=2, thorough k=3), one arbitrary token row, one arbitrary webhook row"},
+		Outside: []string{"gin's route matching (a path parameter equal to a static sibling segment such as 'byHeight' is routed to the parameter route here)", "JSON encoding of response bodies; malformed JSON is modelled as 'binding fails'", "numerals in non-canonical form ('+5', '007') are outside the string model", "storage failures (none injected: a 5xx would then be legitimate)"},
+		Stubs:   []string{"gin.Context model, sqlx over sqlm, webhook target client never called"},
+	})
 	return m
 }
